@@ -1,5 +1,5 @@
 (** C06 — Packet identifiers in flight are unique and never leak.  Statements only. *)
-From Wasp Require Import Model.Base Model.IdPool Proofs.IdPoolFacts.
+From Wasp Require Import Model.Base Spec.MatchSpec Model.DState Model.IdPool Model.Mount Model.Node Proofs.IdPoolFacts Proofs.IdsFacts.
 From stdpp Require Import list sets.
 Open Scope Z_scope.
 
@@ -48,3 +48,30 @@ Example c06_history2 :
   (prun 0 2 [PGet; PGet; PGet; PGet; PPut 7; PPut 1; PPut 1; PGet; PGet]).2 = [1; 2; 0]
   ∧ (pget (prun 0 2 [PGet; PGet; PGet]).1).1 = -1.
 Proof. vm_compute. done. Qed.
+
+(** The same at the level of a whole node, for every state that any history of client packets,
+    connection events, sweeps, gossip and peer failures can reach ([reachable]: start from [cnew k],
+    apply [step] any number of times): the identifiers of the outbound in-flight entries are
+    pairwise distinct and lie in 1..65535; an identifier of that range is free in the pool
+    exactly when no in-flight entry holds it — so none is handed out twice and none leaks,
+    whatever was acknowledged, expired, re-armed, rejected or abandoned on the way; and the
+    identifier the writer would pick next differs from every one in flight. *)
+Theorem inflight_identifiers_unique_and_never_leak : ∀ cl k n, reachable k cl → n ∈ cl_nodes cl →
+  NoDup (out_mids (n_acks n)) ∧
+  (∀ x, x ∈ out_mids (n_acks n) → 1 ≤ x ≤ 65535) ∧
+  (∀ x, 1 ≤ x ≤ 65535 → (infree (ivs (n_pool n)) x ↔ x ∉ out_mids (n_acks n))) ∧
+  (∀ mid pl, get_free 5 (n_pool n) = (Some mid, pl) → 1 ≤ mid ≤ 65535 ∧ mid ∉ out_mids (n_acks n)).
+Proof. exact inflight_ids. Qed.
+Print Assumptions inflight_identifiers_unique_and_never_leak.
+
+(** non-vacuity: a reachable state with three deliveries in flight (two QoS 1, one QoS 2 whose
+    PUBREC has arrived), after one was acknowledged and its identifier reused *)
+Example c06_node_history :
+  let run := fold_left (λ st o, (step [] st o).1) in
+  let ops := [EConnect 0%nat "s" "cs" "" "" 60 None 10; ESubscribe "s" 1 [("a", 1); ("b", 2)] 20;
+              EConnect 0%nat "p" "cp" "" "" 60 None 30;
+              EPublish "p" (Publish "a" "1" 0 false false) false 0 40; EPublish "p" (Publish "a" "2" 0 false false) false 0 50;
+              EAck "s" PUBACK (RefRaw 1) 60; EPublish "p" (Publish "a" "3" 0 false false) false 0 70;
+              EPublish "p" (Publish "b" "4" 0 false false) false 0 80; EAck "s" PUBREC (RefRaw 3) 90; ESweep 0%nat] in
+  out_mids (n_acks (getn (run ops (cnew 1%nat)) 0%nat)) = [2; 1; 3].
+Proof. vm_compute. reflexivity. Qed.
